@@ -150,6 +150,9 @@ class Lib(object):
             st.assume(isn)
             yield st, self.P(engine, st, "netref_conn" if name == "____conn__" else "netref_idpack", o)
             return
+        if isinstance(o, SVal) and engine.cur[0].dynamic_errors and name in ("lower", "upper", "split", "count", "startswith"):
+            yield st, self.sym_method(engine, o, name, node)       # a text method: decided when it is called (call_symmethod)
+            return
         if isinstance(o, SVal) and name not in ("decode", "encode", "startswith"):
             for r in self.dyn_attr_event(engine, st, "GetAttr", o, name, node):
                 yield r
@@ -356,11 +359,11 @@ class Lib(object):
                 res = SVal(z3.Select(m, k))
             else:
                 res = merge_values(present, SVal(z3.Select(m, k)), args[1])
-            st.heap[(d.oid, "has")] = SArr(z3.Store(h, k, False))
+            engine.dict_put(st, d, h=z3.Store(h, k, False))
             yield st, res
             return
         if name == "clear" and not args:
-            st.heap[(d.oid, "has")] = SArr(z3.K(Val, z3.BoolVal(False)))
+            engine.dict_put(st, d, h=z3.K(Val, z3.BoolVal(False)))
             yield st, None
             return
         if name == "copy" and not args:
@@ -377,8 +380,7 @@ class Lib(object):
             # pointwise definition of the updated dict (quantified; instantiated by the solver's array theory)
             st.assume(z3.ForAll([k], z3.Select(nh, k) == z3.Or(z3.Select(h, k), z3.Select(h2, k))))
             st.assume(z3.ForAll([k], z3.Select(nm, k) == z3.If(z3.Select(h2, k), z3.Select(m2, k), z3.Select(m, k))))
-            st.heap[(d.oid, "map")] = SArr(nm)
-            st.heap[(d.oid, "has")] = SArr(nh)
+            engine.dict_put(st, d, m=nm, h=nh)
             yield st, None
             return
         if name in ("keys", "values", "items") and not args:
@@ -488,7 +490,27 @@ class Lib(object):
 
     def call_symmethod(self, engine, st, m, args, kwargs, node):
         o, name = m.recv, m.name
-        if isinstance(o, SVal) and name in ("startswith", "split", "lower", "count"):
+        if isinstance(o, SVal) and name in ("startswith", "split", "lower", "upper", "count") and engine.cur[0].dynamic_errors:
+            # a text method on a dynamically typed PLAIN value: text -> the method; anything else has no such method
+            # (bytes do have lower/upper/split/count/startswith: modelled as an uninterpreted bytes result)
+            z = o.z
+            ln = engine.rel_line(node)
+            self.R(engine, st, "plain", o)          # the definition of `plain` at the receiver (a plain value is not a heap object)
+            nb = st.fork().assume(z3.And(z3.Not(Val.is_VStr(z)), z3.Not(Val.is_VBytes(z)), z3.Not(Val.is_VRef(z)))).label("L%d:no .%s" % (ln, name))
+            if engine.feasible(nb):
+                yield nb, Raised(AttributeError, ExcObj(AttributeError))
+            by = st.fork().assume(Val.is_VBytes(z)).label("L%d:bytes.%s" % (ln, name))
+            if engine.feasible(by):
+                yield by, (SBytes(ops.TEXT_FMT(Val.VStr(seq_lit("bytes." + name)), Val.VTuple(to_vl([o] + list(args)))))
+                           if name in ("lower", "upper") else
+                           SVal(self.spec.uf["text_format"](Val.VStr(seq_lit("bytes." + name)), to_vl([o] + list(args)))))
+            rf = st.fork().assume(Val.is_VRef(z))
+            if engine.feasible(rf):
+                for r in self.op_event(engine, rf, "method:" + name, o, list(args), node):
+                    yield r
+            st.assume(Val.is_VStr(z))
+            o = SStr(Val.vs(z))
+        elif isinstance(o, SVal) and name in ("startswith", "split", "lower", "count"):
             # a text method on a dynamically typed value: the value must provably be text here
             o = engine.narrow(st, o, "str", node, "receiver of .%s()" % name)
         if isinstance(o, SStr) and name == "encode" and args and args[0] in ("utf8", "utf-8") and not kwargs:
@@ -521,7 +543,7 @@ class Lib(object):
             # a pure text -> text method: an uninterpreted function of the receiver (and the argument)
             self.used.add("str.%s: an uninterpreted pure function text -> text" % name)
             fmt = Val.VStr(seq_lit("." + name))
-            yield st, SStr(Val.vs(self.spec.uf["text_format"](fmt, to_vl([o] + list(args)))))
+            yield st, SStr(ops.TEXT_FMT(fmt, Val.VTuple(to_vl([o] + list(args)))))
             return
         if isinstance(o, (SStr, SBytes)) and name == "startswith" and len(args) == 1:
             a = engine.narrow(st, args[0], "str" if isinstance(o, SStr) else "bytes", node, "startswith argument")
@@ -949,6 +971,43 @@ class Lib(object):
             has = self.spec.uf["has_attr"](m, Val.vs(nm))
             yield st, merge_values(has, SVal(self.spec.uf["module_attr"](m, nm)), args[2])
             return
+        if f is getattr and len(args) == 3 and isinstance(args[0], Obj) and isinstance(args[0].cls, type) and isinstance(args[1], (SStr, SVal)):
+            # getattr(self, <computed name>, default): one of the class's methods whose name it is, else the default
+            # (instance attributes with computed names are not modelled: stated)
+            import inspect as _insp
+            self.used.add("getattr(self, computed_name, default): resolves to the class's method of that name, else the default")
+            nm = zseq(args[1]) if isinstance(args[1], SStr) else Val.vs(args[1].z)
+            if isinstance(args[1], SVal):
+                bad = st.fork().assume(z3.Not(Val.is_VStr(args[1].z))).label("L%d:attribute name not text" % ln)
+                yield bad, Raised(TypeError, ExcObj(TypeError))
+                st.assume(Val.is_VStr(args[1].z))
+            rest = st
+            prefix = ""
+            if z3.is_app(nm) and nm.decl().kind() == z3.Z3_OP_SEQ_CONCAT and z3.is_string_value(nm.arg(0)) is False:
+                try:
+                    first = nm.arg(0)
+                    units = []
+                    def lit(e):
+                        if e.decl().kind() == z3.Z3_OP_SEQ_UNIT and z3.is_int_value(e.arg(0)):
+                            units.append(e.arg(0).as_long()); return True
+                        if e.decl().kind() == z3.Z3_OP_SEQ_CONCAT:
+                            return all(lit(c) for c in e.children())
+                        return False
+                    if lit(first):
+                        prefix = "".join(chr(u) for u in units)
+                except Exception:
+                    prefix = ""
+            for mname, raw in sorted(_insp.getmembers(args[0].cls, predicate=_insp.isfunction)):
+                if not engine.is_repo_function(raw):
+                    continue
+                if prefix and not mname.startswith(prefix):
+                    continue            # the computed name starts with a literal prefix this method's name lacks
+                hit = rest.fork().assume(nm == seq_lit(mname)).label("L%d:getattr %s" % (ln, mname))
+                if engine.feasible(hit):
+                    yield hit, BoundMethod(args[0], raw, mname)
+                rest = rest.fork().assume(nm != seq_lit(mname))
+            yield rest.label("L%d:getattr default" % ln), args[2]
+            return
         if f is getattr and len(args) == 3 and isinstance(args[0], SVal) and args[1] not in ("__name__", "__module__"):
             # getattr(obj, name, default) on a dynamic object: one GetAttr event; AttributeError means the default
             self.used.add("getattr(obj, name, default) on a dynamic object = one ghost GetAttr event; AttributeError yields the default")
@@ -1002,7 +1061,9 @@ class Lib(object):
             if args[0].z.get_id() not in self.views:       # a dict view is always iterable
                 bad = st.fork().label("L%d:%s() raises" % (ln, f.__name__))
                 yield bad, Raised(TypeError, ExcObj(TypeError))
-            yield st, SVal(self.spec.uf["seq_of"](z3.IntVal(0 if f is tuple else 1), args[0].z))
+            res = self.spec.uf["seq_of"](z3.IntVal(0 if f is tuple else 1), args[0].z)
+            st.assume(Val.is_VTuple(res))          # a list / tuple (lists are modelled as the tuple of their items)
+            yield st, SVal(res)
             return
         if f is dict and len(args) == 1 and isinstance(args[0], (SVal, SVL, tuple)) and not kwargs:
             self.used.add("dict(pairs): an opaque mapping value determined by the pairs, or TypeError/ValueError")
@@ -1150,7 +1211,12 @@ class Lib(object):
             seq = st.fork().assume(z3.Or(Val.is_VBytes(z), Val.is_VStr(z))).label("L%d:[%d] of bytes/text" % (ln, k))
             if engine.feasible(seq):
                 r = SVal(fresh("elem", Val))
-                seq.assume(z3.Or(Val.is_VInt(r.z), Val.is_VStr(r.z)))
+                by_, tx_ = Val.vby(z), Val.vs(z)
+                # an element of bytes is a byte (an int in 0..255), an element of a text a one-character text
+                seq.assume(z3.If(Val.is_VBytes(z), z3.And(r.z == Val.VInt(by_[k]), by_[k] >= 0, by_[k] < 256),
+                                 r.z == Val.VStr(z3.Unit(tx_[k]))))
+                for fn in ("plain", "sized"):
+                    self.R(engine, seq, fn, r)
                 yield seq, r
                 yield seq.fork().label("IndexError"), Raised(IndexError, ExcObj(IndexError))
             other = st.fork().assume(z3.Not(z3.Or(have, Val.is_VBytes(z), Val.is_VStr(z)))).label("L%d:[%d] not subscriptable" % (ln, k))
@@ -1170,7 +1236,8 @@ class Lib(object):
         if isinstance(o, Obj) and o.kind == "dict":
             m, h = self.dget(engine, st, o)
             kk = to_val(k)
-            res = EntryRef(o, kk) if getattr(o, "valkind", None) == "slot" else SVal(z3.Select(m, kk))
+            res = EntryRef(o, kk) if getattr(o, "valkind", None) == "slot" else \
+                engine.inner_dict(o, kk) if getattr(o, "valkind", None) == "dict" else SVal(z3.Select(m, kk))
             for r in engine.with_errs(st, (res, [(KeyError, z3.Not(z3.Select(h, kk)))]), node):
                 yield r
             return
@@ -1215,10 +1282,25 @@ class Lib(object):
                 if v.d is not o:
                     raise Unsupported("a slot of one table stored into another")
                 vv = z3.Select(m, v.key)           # the very list object that is (or was) stored under v.key
+            elif getattr(o, "valkind", None) == "dict":
+                # a dict stored into a dict-of-dicts: its contents become the entry's contents (only the empty literal and
+                # another entry's inner dict are modelled)
+                if isinstance(v, dict) and not v:
+                    im, ih = z3.K(Val, Val.VNone), z3.K(Val, z3.BoolVal(False))
+                elif isinstance(v, Obj) and v.kind == "dict":
+                    im, ih = self.dget(engine, st, v)
+                else:
+                    raise Unsupported("value stored into a dict of dicts (line %d)" % node.lineno)
+                st.heap[(o.oid, "map2")] = SArr(z3.Store(engine.heap_get(st, o, "map2").z, kk, im))
+                st.heap[(o.oid, "has2")] = SArr(z3.Store(engine.heap_get(st, o, "has2").z, kk, ih))
+                st.heap[(o.oid, "has")] = SArr(z3.Store(h, kk, True))
+                return [(st, None)]
             else:
                 vv = to_val(v)
-            st.heap[(o.oid, "map")] = SArr(z3.Store(m, kk, vv))
-            st.heap[(o.oid, "has")] = SArr(z3.Store(h, kk, True))
+                if isinstance(v, SReal):
+                    # a point in time stored as a float object reads back as the same point in time (floats as reals)
+                    st.assume(self.spec.uf["f64_real"](ops.REAL_F64(v.z)) == v.z)
+            engine.dict_put(st, o, m=z3.Store(m, kk, vv), h=z3.Store(h, kk, True))
             return [(st, None)]
         if isinstance(o, EntryRef) and type(k) is int and 0 <= k <= 1:
             m, h = self.dget(engine, st, o.d)
@@ -1432,7 +1514,7 @@ class Lib(object):
                         if engine.feasible(bad):
                             res.append((bad, Raised(KeyError, ExcObj(KeyError))))
                         st2.assume(z3.Select(h, kk))
-                        st2.heap[(o.oid, "has")] = SArr(z3.Store(h, kk, False))
+                        engine.dict_put(st2, o, h=z3.Store(h, kk, False))
                         res.append((st2, None))
                     else:
                         raise Unsupported("del on %r" % (o,))
@@ -1570,6 +1652,31 @@ class Lib(object):
             pos = [p for p in sig.parameters.values() if p.kind in (p.POSITIONAL_ONLY, p.POSITIONAL_OR_KEYWORD)]
             var = [p for p in sig.parameters.values() if p.kind == p.VAR_POSITIONAL]
             allargs = ([f.recv] if isinstance(f, BoundMethod) else []) + list(args)
+            if not var and isinstance(starval, SVal) and not kwargs:
+                # f(a, *rest) with a dynamic `rest` and a callee without *varargs: `rest` must be an iterable of exactly the missing
+                # number of items (TypeError otherwise - also when it is not iterable); the items fill the remaining parameters
+                missing = len(pos) - len(allargs)
+                z = starval.z
+                items = Val.titems(z)
+                elems = [fresh("star", Val) for _ in range(max(missing, 0))]
+                spine = VL.nil
+                for x in reversed(elems):
+                    spine = VL.cons(x, spine)
+                ok = z3.And(Val.is_VTuple(z), items == spine) if missing >= 0 else z3.BoolVal(False)
+                ln = engine.rel_line(node)
+                bad = st.fork().assume(z3.Not(z3.And(Val.is_VTuple(z), self.R(engine, st, "vlen", SVL(items)).z == max(missing, 0))
+                                              if missing >= 0 else z3.BoolVal(False))).label("L%d:wrong arity / not a tuple" % ln)
+                yield bad, Raised(TypeError, ExcObj(TypeError))
+                if missing >= 0:
+                    good = st.fork().assume(ok).label("L%d:star%d" % (ln, missing))
+                    for fn in ("plain", "sized"):
+                        self.R(engine, good, fn, starval)       # definitions of the element-wise predicates at the argument tuple
+                    for fact in self.spec.spine_facts(engine, good, SVL(spine)):
+                        good.assume(fact)
+                    self.used.add("*args of a dynamic value: modelled for tuples (other iterables of the right length are not explored)")
+                    for r in engine.call_repo(good, target, allargs + [SVal(x) for x in elems], {}, node):
+                        yield r
+                return
             if not var or len(allargs) < len(pos):
                 raise Unsupported("*args call of %s: positional parameters would be filled from the symbolic tuple" % target.__name__)
             if isinstance(starval, SVal):
